@@ -348,7 +348,9 @@ def run(tier):
             init = cfg.expr_operand(new, s["rv"]["ops"][idx])
     rep.check(init == ("const", 1), "anchor-ids", "initial-counter", "anchor_id_count does not start at 1 (ids must be positive; 0 means 'no anchor')",
               site=new.span, detail=str(init))
-    cw = sorted(k for k, f in F.fns.items() if f.crate == "saphyr_parser" and cfg.field_writes(f, PARSER, "anchor_id_count"))
+    # builders that take the parser by value (configuration before parsing starts, like keep_tags) are not writers in this sense
+    cw = sorted(k for k, f in F.fns.items() if f.crate == "saphyr_parser" and cfg.field_writes(f, PARSER, "anchor_id_count")
+                and not (f.arg_count >= 1 and not f.locals[1]["ty"].startswith("&") and "Parser" in f.locals[1]["ty"]))
     rep.check(cw == [P + "register_anchor"], "anchor-ids", "counter-writers", "anchor_id_count is written outside register_anchor (ids could repeat)",
               detail=[short(x) for x in cw])
     ra = F.fn(P + "register_anchor")
